@@ -589,4 +589,35 @@ fn max(a: usize, b: usize) -> (r: usize)
     return g
 
 
-GROUPS = {'cfnrep': g_cfnrep, 'ceq': g_ceq, 'conv': g_conv, 'expect': g_expect, 'opmatch': g_opmatch, 'cnf': g_cnf, 'failed': g_failed, 'structured': g_structured, 'validate_data': g_validate_data, 'memo': g_memo, 'memo_block': g_memo_block, 'compare': g_compare, 'tables': g_tables, 'index2': g_index2, 'index': g_index, 'tracker': g_tracker, 'validate': g_validate, 'eval_blocks': g_eval_blocks, 'report': g_report, 'merge': g_merge, 'status': g_status, 'exit': g_exit, 'eval': g_eval, 'eval_disp': g_eval_disp}
+def g_dslice(repo):
+    """R16 fragment (C08): the statement(s) of validate::build_data_file that compute how many bytes of an unparsable data
+    file are quoted in the error message; the next statement slices `&content[..str_len]`, which panics unless str_len is a
+    char boundary <= len (std contract of str slicing): that requirement of the use site is the postcondition"""
+    g = GroupBuild('dslice', repo)
+    g.raw('prelude_common.rs')
+    g.text('''pub uninterp spec fn str_bytes(s: &String) -> nat;
+pub uninterp spec fn is_boundary(s: &String, n: int) -> bool;
+#[verifier::external_body]
+pub proof fn axiom_boundary_ends(s: &String)
+    ensures is_boundary(s, 0), is_boundary(s, str_bytes(s) as int) {}
+pub assume_specification [String::len] (s: &String) -> (r: usize) ensures r == str_bytes(s);
+#[verifier::external_body]
+fn verif_is_char_boundary(s: &String, n: usize) -> (r: bool) ensures r == is_boundary(s, n as int) { s.is_char_boundary(n) }
+mod cmp {
+    use vstd::prelude::*;
+    #[verifier::external_body]
+    pub fn min(a: usize, b: usize) -> (r: usize) ensures r == (if a <= b { a } else { b }) { std::cmp::min(a, b) }
+}
+''', 'ASSUMED model of UTF-8 strings: byte length and char boundaries uninterpreted, offsets 0 and len are boundaries (std); String::len, str::is_char_boundary (routed through verif_is_char_boundary, listed replacement), std::cmp::min on usize')
+    g.fragment('U-dslice', CMD + 'validate.rs', 'build_data_file', None,
+               r'let\s+(?:mut\s+)?str_len\b[^;]*;(?:\s*while\s[^{};]*\{[^{}]*\})?', 0,
+               ('content: &String', 'usize'), 'str_len',
+               '    ensures\n        res <= str_bytes(content),\n        is_boundary(content, res as int),\n',
+               'the computation of `str_len` in build_data_file (how much of an unparsable data file is quoted in the parse error); everything else, including the slicing `&content[..str_len]` whose std precondition is the postcondition here, is dropped',
+               props=['C08'], pre='proof { axiom_boundary_ends(content); }',
+               subst=(('content.is_char_boundary(', 'verif_is_char_boundary(content, '),
+                      ('while !verif_is_char_boundary(content, str_len) {', 'while !verif_is_char_boundary(content, str_len) invariant str_len <= str_bytes(content), is_boundary(content, 0) decreases str_len {')))
+    return g
+
+
+GROUPS = {'dslice': g_dslice, 'cfnrep': g_cfnrep, 'ceq': g_ceq, 'conv': g_conv, 'expect': g_expect, 'opmatch': g_opmatch, 'cnf': g_cnf, 'failed': g_failed, 'structured': g_structured, 'validate_data': g_validate_data, 'memo': g_memo, 'memo_block': g_memo_block, 'compare': g_compare, 'tables': g_tables, 'index2': g_index2, 'index': g_index, 'tracker': g_tracker, 'validate': g_validate, 'eval_blocks': g_eval_blocks, 'report': g_report, 'merge': g_merge, 'status': g_status, 'exit': g_exit, 'eval': g_eval, 'eval_disp': g_eval_disp}
